@@ -1,7 +1,74 @@
-/- Driver glue for C09: case lines `c09.<sub> <args…> | <impl…>` (stub until the property is built) -/
+/-
+  Driver glue for C09. Case line:
+    c09.trace <workers> <count> <bytes> <retry> <retentionMs> <dqmode> <dqworkers> <dqcount> <adders> <seed>
+              <nev> (<size> <kind>)*nev <nscript> (<fails>)* | <trace tokens>
+  The trace is the implementation result; the model replays it (Model/RetryTrace.lean);
+  `P` is SpecC09.holds on the observed trace.
+-/
 import FileD.Prelude.Tok
+import FileD.Model.RetryTrace
+import FileD.Spec.C09
 namespace FileD.DrvC09
+open FileD Tok Batcher Retry
 
-def handle (_cmd : String) (_args _impl : List String) : Option (String × String) := none
+def parseKinds : List String → Nat → Option (List Ev)
+  | [], _ => some []
+  | k :: r, i => do
+    let kind ← Kind.ofNat? (← nat? k)
+    let rest ← parseKinds r (i + 1)
+    pure (⟨i + 1, 8, kind⟩ :: rest)
+
+/-- `c09.es <retry> <dq> <n> (<kind>)*n | sends <a> f <n> ids… c <n> ids… C <n> ids…`: one batch through the real
+    elasticsearch output against an endpoint that always fails -/
+def handleES (args impl : List String) : Option (String × String) :=
+  match args with
+  | rt :: dqs :: _n :: kinds => do
+    let retry ← nat? rt
+    let dq ← bool? dqs
+    let evs ← parseKinds kinds 0
+    let ids := evs.map (·.id)
+    let enc (tag : String) (l : List Nat) := unwords [tag, encList toString l]
+    if (forEach evs).isEmpty then
+      -- nothing to send: the batch is committed without calling OutFn
+      let m := unwords ["sends", "0", enc "f" [], enc "c" ids, enc "C" []]
+      pure (m, if unwords impl == m then "ok" else "fail")
+    else
+      let res := out ⟨retry, dq⟩ evs (List.replicate (retry + 3) false) (List.replicate (retry + 3) (.dur 1)) 0
+      let f := failedIds res.log
+      let m := unwords ["sends", toString (failedSends res.log), enc "f" f, enc "c" (if res.keep then ids else []), enc "C" f]
+      -- property on the observed result itself: exactly one way, every event once
+      let want := if dq then unwords [enc "f" ids, enc "c" [], enc "C" ids] else unwords [enc "f" [], enc "c" ids, enc "C" []]
+      let p := match impl with
+        | "sends" :: a :: rest =>
+          match nat? a with
+          | some sends => if unwords rest == want && sends ≥ retry + 1 then "ok" else "fail"
+          | none => "bad-impl"
+        | _ => "fail"
+      pure (m, p)
+  | _ => none
+
+def handle (cmd : String) (args impl : List String) : Option (String × String) :=
+  if cmd = "c09.es" then handleES args impl else
+  if cmd ≠ "c09.trace" then none else
+  match args with
+  | w :: cnt :: byt :: rt :: _ret :: dqm :: dqw :: dqc :: _ => do
+    let workers ← nat? w
+    let maxCount ← nat? cnt
+    let maxBytes ← nat? byt
+    let retry ← int? rt
+    let dqmode ← nat? dqm
+    let dqworkers ← nat? dqw
+    let dqcount ← nat? dqc
+    let mc : Cfg := { workers, maxCount, maxBytes, timeout := 10, enqueueLocked := true }
+    let dc : Cfg := { workers := dqworkers, maxCount := dqcount, maxBytes := 0, timeout := 10, enqueueLocked := true }
+    let rc : RCfg := { attemptNum := retry, dq := dqmode != 0 }
+    match parseCTks (impl.length + 1) impl with
+    | none => pure ("bad-trace", "bad-impl")
+    | some tks =>
+      let m := renderReplayC (replayAll mc dc rc { main := { st := init mc }, dq := { st := init dc } } tks 0 [])
+      let conf : SpecC09.Conf := { mainCount := maxCount, mainBytes := maxBytes, dqCount := dqcount, attemptNum := retry, dq := dqmode != 0 }
+      let p := if SpecC09.holds conf tks then "ok" else "fail"
+      pure (m, p)
+  | _ => none
 
 end FileD.DrvC09
